@@ -72,6 +72,9 @@ type family struct {
 
 	scenarios []*scenario
 	dead      bool
+	// part / parts split the fault table of a scenario over several labs
+	// (running in parallel); part p of n takes the table entries i with i%n == p
+	part, parts int
 }
 
 // scenario is one RPC with its parameter variants.
@@ -327,7 +330,10 @@ func (f *family) run() {
 			// field x operator table is run on the first variant in the quick
 			// tier and on every variant in the thorough tier, the other
 			// variants get the cross-exchange operators (swap / replace)
-			for _, mu := range tbl {
+			for ti, mu := range tbl {
+				if f.parts > 1 && ti%f.parts != f.part {
+					continue
+				}
 				if i > 0 && !r.Thorough() && mu.Path != "" && mu.Op != "swap" {
 					continue
 				}
@@ -337,9 +343,14 @@ func (f *family) run() {
 					r.Count("coherent_forgery_cases", 1)
 				}
 			}
-			r.Count("table_size:"+sc.rpc, len(tbl))
+			if f.part == 0 {
+				r.Count("table_size:"+sc.rpc, len(tbl))
+			}
 			if r.Thorough() && len(tbl) > 1 {
 				n := 150
+				if f.parts > 1 {
+					n /= f.parts
+				}
 				for k := 0; k < n; k++ {
 					a, b := tbl[f.rng.IntN(len(tbl))], tbl[f.rng.IntN(len(tbl))]
 					if a == b || a.Op == "silent" || b.Op == "silent" {
@@ -360,7 +371,7 @@ func runC10(r *mon.Run, replay string) {
 	r.Assume("core (rhp/v4 merkle, sighash, Revise* functions) is the trusted base for computing expected roots and successor revisions")
 	r.Assume("the in-repo server, EphemeralContractor and EphemeralSectorStore are the honest peer behind the man-in-the-middle; transports' own framing (siamux/quic) is not mutated")
 	r.Extra("exhaustive", true)
-	r.Extra("exhaustive_over", "the enumerated fault table (RPC x host message x field x operator) for the recorded message shapes")
+	r.Extra("exhaustive_scope", "the enumerated fault table (RPC x host message x field x operator) for the recorded message shapes")
 
 	var only *c10Case
 	if replay != "" {
@@ -379,20 +390,36 @@ func runC10(r *mon.Run, replay string) {
 		only = &w.Case
 	}
 
-	builders := []func(*family) error{
-		buildSectorFamily,
-		buildRootsFamily,
-		buildAppendFreeFamily,
-		buildAccountFamily,
-		buildPlainFamily,
-		func(f *family) error { return buildFormFamily(f) },
-		func(f *family) error { return buildRenewalFamily(f, "renew") },
-		func(f *family) error { return buildRenewalFamily(f, "refresh-full") },
-		func(f *family) error { return buildRenewalFamily(f, "refresh-partial") },
+	type job struct {
+		build       func(*family) error
+		part, parts int
 	}
-	vcli.Parallel(len(builders), func(i int) {
-		f := &family{r: r, rng: r.RNG(uint64(1000 + i)), only: only}
-		if err := builders[i](f); err != nil {
+	jobs := []job{
+		{buildSectorFamily, 0, 1},
+		{buildRootsFamily, 0, 1},
+		{buildAppendFreeFamily, 0, 1},
+		{buildAccountFamily, 0, 1},
+		{buildPlainFamily, 0, 1},
+	}
+	// the contract-forming RPCs have the largest tables and the most expensive
+	// cases (a fresh confirmed contract per committed exchange): three labs each
+	for p := 0; p < 3; p++ {
+		jobs = append(jobs,
+			job{func(f *family) error { return buildRenewalFamily(f, "renew") }, p, 3},
+			job{func(f *family) error { return buildRenewalFamily(f, "refresh-full") }, p, 3},
+			job{func(f *family) error { return buildRenewalFamily(f, "refresh-partial") }, p, 3},
+			job{buildFormFamily, p, 3})
+	}
+	vcli.Parallel(len(jobs), func(i int) {
+		f := &family{r: r, rng: r.RNG(uint64(1000 + i)), only: only, part: jobs[i].part, parts: jobs[i].parts}
+		if only != nil {
+			// a replayed case runs on one lab only
+			f.parts = 1
+			if jobs[i].part != 0 {
+				return
+			}
+		}
+		if err := jobs[i].build(f); err != nil {
 			harnessFail(r, "building family "+f.name, err)
 			return
 		}
@@ -408,7 +435,7 @@ func runC10(r *mon.Run, replay string) {
 		}
 		t0 := time.Now()
 		f.run()
-		r.Extra("family_wall_s:"+f.name, time.Since(t0).Seconds())
+		r.Extra(fmt.Sprintf("family_wall_s:%s:%d", f.name, f.part), time.Since(t0).Seconds())
 	})
 	if only == nil {
 		r.Floor("faults_that_changed_the_wire", int64(r.Pick(2000, 5000)))
